@@ -319,6 +319,28 @@ def run_cell(name, params, plan, seed=7, n_draws=4):
                     "object that compares equal to the old one) the old stream went from "
                     "%d to %d uniforms and the new one from %d to %d"
                     % (name, used, sold.calls, used, snew.calls)), info
+    # a shallow copy is another instance: re-pointing one of the two must not
+    # redirect the other (which goes on exactly like a never-copied twin)
+    import copy
+    for repoint_copy in (True, False):
+        s0, st_ = ScriptedStream(seed, plan), ScriptedStream(seed, plan)
+        d0, dt = build(name, params, s0), build(name, params, st_)
+        d0.draw()
+        dt.draw()
+        dc = copy.copy(d0)
+        snew = ScriptedStream(seed + 5)
+        moved, stays = (dc, d0) if repoint_copy else (d0, dc)
+        moved.stream = snew
+        moved.draw()
+        used_new = snew.calls
+        a = [stays.draw() for _ in range(2)]
+        b = [dt.draw() for _ in range(2)]
+        if snew.calls != used_new or a != b or stays.stream is not s0:
+            return ("instances-interfere", "Dist%s(%s): after copy.copy() and re-pointing %s "
+                    "to another stream, the other instance drew %s (its own stream went to "
+                    "%d uniforms, the new stream from %d to %d); a never-copied twin draws %s"
+                    % (name, params, "the copy" if repoint_copy else "the original", a,
+                       s0.calls, used_new, snew.calls, b)), info
     return None, info
 
 
